@@ -40,6 +40,7 @@ type Case struct {
 	Method, Path string
 	Repeat       int  `json:",omitempty"` // build and run this many times (map-order dependent behaviour)
 	Late         int  `json:",omitempty"` // the last Late top-level items are registered after the app served a request, followed by RebuildTree
+	Running      bool `json:",omitempty"` // with Late: one running server - the handler is obtained once, before the warm-up request, and serves the probe too
 	Started      bool `json:",omitempty"` // the app served a request before anything was registered or mounted (registration after the first start)
 	// RootMethods: the root app's Config.RequestMethods: 0 = default, 1 = GET and POST only, 2 = default plus PURGE,
 	// 3 = POST, GET, HEAD (another order). Sub-apps are created with the defaults, as fiber.New() does; the routes only
@@ -205,10 +206,17 @@ func runOne(c Case, mode string) (out outcome, panicked string) {
 		// the table grows while the app is in service: the first items, a served request, the remaining items and the
 		// documented RebuildTree
 		reg(c.Items[:len(c.Items)-c.Late])
-		vk.Do(app, "GET", "/warm-up")
+		h := app.Handler()
+		vk.DoHandler(h, "GET", "/warm-up")
 		o.trace = nil
 		reg(c.Items[len(c.Items)-c.Late:])
 		app.RebuildTree()
+		if c.Running {
+			resp := vk.DoHandler(h, c.Method, c.Path)
+			out.s = fmt.Sprintf("trace=%v status=%d body=%q", o.trace, resp.Response.StatusCode(), resp.Response.Body())
+			out.trace = len(o.trace)
+			return out, ""
+		}
 	} else {
 		reg(c.Items)
 	}
@@ -422,6 +430,7 @@ func genCase(t *rapid.T) Case {
 	c.Items = g.items(rapid.IntRange(1, 3).Draw(t, "depth"), "")
 	if len(c.Items) > 1 && rapid.IntRange(0, 3).Draw(t, "late") == 0 {
 		c.Late = rapid.IntRange(1, len(c.Items)-1).Draw(t, "nlate")
+		c.Running = rapid.Bool().Draw(t, "running")
 	}
 	c.Method = rapid.SampledFrom([]string{"GET", "POST"}).Draw(t, "m")
 	if rapid.IntRange(0, 3).Draw(t, "rootmethods") == 0 {
